@@ -206,6 +206,13 @@ impl State for FileState {
                 .map_err(|_| IggyError::InvalidNumberEncoding)?
                 as usize;
             total_size += 4;
+            if context_length as u64 > file_size.saturating_sub(total_size) {
+                error!(
+                    "State file is corrupted, context length: {context_length} of entry with index: {index} exceeds the remaining file size: {}",
+                    file_size.saturating_sub(total_size)
+                );
+                return Err(IggyError::StateFileCorrupted);
+            }
             let mut context = BytesMut::with_capacity(context_length);
             context.put_bytes(0, context_length);
             reader
@@ -229,6 +236,13 @@ impl State for FileState {
                 .map_err(|_| IggyError::InvalidNumberEncoding)?
                 as usize;
             total_size += 4;
+            if command_length as u64 > file_size.saturating_sub(total_size) {
+                error!(
+                    "State file is corrupted, command length: {command_length} of entry with index: {index} exceeds the remaining file size: {}",
+                    file_size.saturating_sub(total_size)
+                );
+                return Err(IggyError::StateFileCorrupted);
+            }
             let mut command = BytesMut::with_capacity(command_length);
             command.put_bytes(0, command_length);
             reader
